@@ -440,6 +440,16 @@ def check(tier="quick", seed=0, repo="/repo"):
                     bad(pre + "/hashed-id-is-registered-id" + sfx, f"{hname}: {ex}")
                 except Undecided as ex:
                     und(pre + "/hashed-id-is-registered-id" + sfx, str(ex))
+    emit_obligations(res, repo, ok, bad, "C13")
+    if res["open"]:
+        replay_open(res, repo)
+    res["seconds"] = round(time.time() - t0, 2)
+    return res
+
+
+
+def emit_obligations(res, repo, ok, bad, prefix):
+    """E1: every back end prints the first eight hex digits of the definition's hash (shared by C13 and C04)"""
     # E1: back ends
     try:
         sites = emit_sites(repo)
@@ -448,7 +458,7 @@ def check(tier="quick", seed=0, repo="/repo"):
         sites = []
     per_file = {}
     for fn, func, ln, node in sites:
-        name = f"C13/emit/{fn}:{func}"
+        name = f"{prefix}/emit/{fn}:{func}"
         k = per_file.get(name, 0)
         per_file[name] = k + 1
         if k:
@@ -465,13 +475,9 @@ def check(tier="quick", seed=0, repo="/repo"):
             bad(name, f"{fn}:{func} line {ln} prints {src(node.value)} instead of the first eight hex digits of the definition's hash")
     for fn in ("python.py", "c99.py", "javascript.py", "matlab.py"):
         if not any(s[0] == fn for s in sites):
-            bad(f"C13/emit/{fn}:present", f"{fn} prints no version hash at all")
+            bad(f"{prefix}/emit/{fn}:present", f"{fn} prints no version hash at all")
         else:
-            ok(f"C13/emit/{fn}:present", "the back end prints the version hash")
-    if res["open"]:
-        replay_open(res, repo)
-    res["seconds"] = round(time.time() - t0, 2)
-    return res
+            ok(f"{prefix}/emit/{fn}:present", "the back end prints the version hash")
 
 
 def replay_open(res, repo):
